@@ -58,7 +58,7 @@ def mirror(tr, exp):
     return None
 
 
-def run_agm(pid, tier, seed, fams, mutants, rule, assumptions, sample=None, replicas=1):
+def run_agm(pid, tier, seed, fams, mutants, rule, assumptions, sample=None, replicas=1, write=True):
     t0 = time.time()
     verdict = vlib.Verdict(pid)
     states = trans = 0
@@ -150,6 +150,8 @@ def run_agm(pid, tier, seed, fams, mutants, rule, assumptions, sample=None, repl
         "samples": [{"prog": exp_by_id[i]["prog"], "meaning": exp_by_id[i]["den"], "observed": by_id[i]["obs"], "trace_ids": by_id[i]["ids"]} for i in s_ids],
         "known_findings_reobserved": verdict.known_hits,
     }
+    if not write:
+        return verdict, coverage
     rc = verdict.finish()
     vlib.write_evidence(pid, tier, seed, "model_checking", coverage, assumptions, time.time() - t0, len(verdict.violations))
     return rc
@@ -186,10 +188,27 @@ def c07(tier, seed, replay=None):
     q = tier == "quick"
     fams = [("ho", 4, None), ("nest", 2, None), ("nestq", 3, 800) if q else ("nest", 3, None)]
     muts = [("ho", 3, MUT_GEQ)]
-    return run_agm("C07", tier, seed, fams, muts,
-                   "ho family: d^k/dx^k of x^e for k = 2..4, e = 2..5, all 2^k forward/reverse mode sequences, two points; nest family: inner "
-                   "derivatives consumed and differentiated again by outer levels; every program has one meaning independent of the mode sequence",
-                   ASSUME)
+    t0 = time.time()
+    v1, cov = run_agm("C07", tier, seed, fams, muts,
+                      "ho family: d^k/dx^k of x^e for k = 2..4, e = 2..5, all 2^k forward/reverse mode sequences, two points; nest family: inner "
+                      "derivatives consumed and differentiated again by outer levels; every program has one meaning independent of the mode sequence",
+                      ASSUME, write=False)
+    # per primitive configuration: rr / fr / rf / ff Hessian-vector products agree, are symmetric and equal d(grad)/dx (Contract!SecondOrder)
+    from checks import rules
+    v2, cov2 = rules.c07_second(tier, seed)
+    cov["states"] += cov2["states"]
+    cov["transitions"] += cov2["transitions"]
+    cov["traces_validated_against_impl"] += cov2["traces_validated_against_impl"]
+    cov["evaluations"] += cov2["evaluations"]
+    cov["distinct_nontrivial"] += cov2["distinct_nontrivial"]
+    cov["per_primitive_second_order"] = {k: cov2[k] for k in ("families", "not_evaluated", "observations_rejected_by_contract", "primitives_covered")}
+    v1.violations += v2.violations
+    for k, n in v2.known_hits.items():
+        v1.known_hits[k] = v1.known_hits.get(k, 0) + n
+    cov["known_findings_reobserved"] = v1.known_hits
+    rc = v1.finish()
+    vlib.write_evidence("C07", tier, seed, "model_checking", cov, ASSUME + rules.ASSUME, time.time() - t0, len(v1.violations))
+    return rc
 
 
 def c14(tier, seed, replay=None):
